@@ -85,6 +85,8 @@ impl Incremental {
                 miss.insert(path.src.clone());
                 continue;
             };
+            #[cfg(feature = "verif")]
+            veryl_path::sim::observe_read("src.read", &path.src, input.as_bytes());
             let hash = veryl_cache::content_hash(input.as_bytes());
 
             let entry = store.entry(&path.src.to_string_lossy());
